@@ -68,6 +68,10 @@ type Env struct {
 	frameAllowed  map[string][]string
 	frameAllowAll map[string]bool
 	frameOn       bool
+	cellArray     map[string]bool
+	framePreserved []types.Type
+	epoch         int
+	traceDeclared map[string]bool
 	pending       sync.WaitGroup
 	writeLog      map[string][]string
 	allocLog      map[string]bool
@@ -80,7 +84,7 @@ func newEnv(w *World, top string, timeoutMs int) (*Env, error) {
 	}
 	e := &Env{w: w, sess: s, top: top, declared: map[string]bool{}, heapSorts: map[string]string{},
 		strIDs: map[string]int{}, funcIDs: map[*ssa.Function]int{}, trusted: map[string]bool{}, inlined: map[string]bool{},
-		kindCount: map[string]int{}, timeoutMs: timeoutMs, recDefs: map[string]*recDef{}, leafTypes: map[string]types.Type{}}
+		kindCount: map[string]int{}, timeoutMs: timeoutMs, recDefs: map[string]*recDef{}, leafTypes: map[string]types.Type{}, cellArray: map[string]bool{}}
 	return e, nil
 }
 
